@@ -1,4 +1,5 @@
 """Shared generator and metadata of the engine properties (C01, C02, C03, C04, C06, C17)."""
+import random
 import gramgen as G
 from gramgen import A, B
 
@@ -72,6 +73,7 @@ def generate(rng, tier, enum_size=5, enum_len=3, sample5=1500, n_random=1000, na
         for w in ([A, B, B, B], [B, B], [A, A, B], G.rand_input(rng, 4)):
             out.append((G.case_text(rules, root, w, flags=fl), {"stream": "enumerated-sample", "unproductive": unprod(rules, root)}))
     out += clamp_cases()
+    out += leftrec_families(random.Random(1), tier == "quick")     # own generator: the streams below keep their draws
     out += shared_memo_cases(rng, 500 if tier == "quick" else 6000)
     for i in range(n_random):
         ops = G.MONO if i % 3 == 0 else G.FULL
@@ -141,6 +143,63 @@ def shared_memo_cases(rng, n):
 
 
 
+TRIM_FAMILIES = False
+
+
+def leftrec_families(rng, quick):
+    """left recursion THROUGH every combinator: P -> W(P) b | a for every wrapper W (trims of every mode, Name, named and
+    one-element sequences, Optional, Choice, SeqTry, Suppress, Single), P -> Q P b | a for nullable prefixes Q (Optional,
+    sequences of Optionals, Many, Empty, a trim of Empty), and indirect recursion through Any and through Choice;
+    inputs with and without whitespace in front of and between the tokens"""
+    out = []
+    a, b, c = ('rune', A), ('rune', B), ('rune', 99)
+    SP, LF = 32, 10
+    p0, p1 = ('ref', 0), ('ref', 1)
+    modes = ['WsNone', 'WsSpaces', 'WsSpacesNl', 'WsSpacesForceNl']
+    wrappers = [lambda x: x] + ([(lambda m: lambda x: ('ltrim', m, x))(m) for m in modes] if TRIM_FAMILIES else []) + [
+        lambda x: ('name', [78, 49], x), lambda x: G.seqof(x), lambda x: ('seq', 'SeqOf', 'INone', False, [83, 49], [x]),
+        lambda x: ('opt', x), lambda x: ('choice', [x, b]), lambda x: ('choice', [b, x]),
+        lambda x: ('seq', 'SeqTry', 'INone', False, None, [x, b]), lambda x: ('suppress', x), lambda x: ('single', x),
+        lambda x: ('seq', 'SeqFirstOrAll', 'INone', False, None, [x, b])]
+    prefixes = [('opt', c), G.seqof(('opt', c), ('opt', b)), G.seqof(('opt', c)), ('empty',), G.seqof(('empty',), ('empty',)),
+                ('seq', ('SMany', False), 'INone', False, None, [c]), ('ltrim', 'WsSpacesNl', ('empty',)),
+                ('ltrim', 'WsSpacesForceNl', ('opt', c)), ('choice', [c, ('empty',)]), ('name', [78, 50], ('opt', c))]
+    if not TRIM_FAMILIES:
+        # Sentence over a leading trim starts its node behind the whitespace and whitespace errors outrank the furthest
+        # failure: the oracles of C04 and C06 make no claim there; C01-C03 set TRIM_FAMILIES
+        prefixes = [q for q in prefixes if q[0] != 'ltrim']
+    grammars = []
+    for w in wrappers:
+        grammars.append([('memo', 1, ('any', [G.seqof(w(p0), b), a]))])
+        grammars.append([('memo', 1, ('any', [a, G.seqof(w(p0), b)]))])
+    for q in prefixes:
+        grammars.append([('memo', 1, ('any', [G.seqof(q, p0, b), a]))])
+        if TRIM_FAMILIES:
+            grammars.append([('memo', 1, ('any', [G.seqof(q, p0, ('ltrim', 'WsSpacesNl', b)), a]))])
+    for alt in ('any', 'choice'):
+        for first in (True, False):
+            m_alts = [G.seqof(p0, b), c] if first else [c, G.seqof(p0, b)]
+            grammars.append([('memo', 1, ('any', [G.seqof(p0, a), p1])), ('memo', 2, (alt, m_alts))])
+            grammars.append([('memo', 1, (alt, [G.seqof(p1, a), b])), ('memo', 2, ('any', [G.seqof(p0, b), a]))])
+    words = [[A], [A, B], [A, B, B], [B], [], [A, A, B], [99], [99, B], [99, B, A], [99, A, A, B, A, B], [99, B, A, B, A],
+             [B, B, A], [A, B, A, B], [99, A, B]]
+    for rules in grammars:
+        rules, root = G.uniquify_memo(rules, ('ref', 0))
+        if exponential_shape(rules, root) or not G.repetition_ok(rules, root):
+            SKIPPED["exponential_shape"] += 1
+            continue
+        fl = flags_for(rules, root, False)
+        ws_wanted = any(x[0] in ('ltrim', 'rtrim') for r in rules for x in G.walk(r))
+        for w in (words if not quick else words[:9] + rng.sample(words[9:], 2)):
+            variants = [w]
+            if ws_wanted and w:
+                variants += [[LF] + w, [SP] + w, [w[0], LF] + w[1:], [w[0], SP, SP] + w[1:]]
+            for v in variants:
+                out.append((G.case_text(rules, root, v, offset=rng.choice([1, 1, 7]), flags=fl),
+                            {"stream": "left-recursion-through-combinators", "unproductive": unprod(rules, root)}))
+    return out
+
+
 def clamp_cases():
     """deterministic family: a memoized parser M with k distinguishable results looked up three or four times at one
     position: one evaluation, then cache hits whose consumers extend the cached list differently, one of them memoized
@@ -199,6 +258,11 @@ def error_cases(rng, n):
         rules = [G.name_alternatives(r, cnt) for r in rules]
         root = G.name_alternatives(root, cnt)
         alphabet = (A, B)
+        if i % 5 == 0:
+            # a token that means something to Printf: the message "was expecting "%"" must come through verbatim
+            rules = [swap_runes(r, B, 37) for r in rules]
+            root = swap_runes(root, B, 37)
+            alphabet = (A, 37)
         fl = flags_for(rules, root, True)
         for _ in range(3):
             out.append((G.case_text(rules, root, G.rand_input(rng, 6, alphabet), offset=rng.choice([1, 1, 3]), flags=fl),
